@@ -131,6 +131,65 @@ class Opaque:
         return f"<opaque {self.tag}>"
 
 
+class PiMul:
+    """q . pi with q rational: angles of the Chebyshev / Clenshaw-Curtis constructions.  Closed under + - and scaling by
+    rationals; cos / sin are exact (multi-quadratic) for denominators 1, 2, 3, 4, 5, 6, 10, 12."""
+
+    _xeval_open = True
+
+    def __init__(self, q):
+        self.q = Fraction(q)
+
+    def _sc(self, o):
+        o = exact(o)
+        if isinstance(o, (int, Fraction)) and not isinstance(o, bool):
+            return PiMul(self.q * o)
+        if isinstance(o, Poly) and o.is_const():
+            return PiMul(self.q * o.const_value())
+        return NotImplemented
+
+    __mul__ = __rmul__ = _sc
+
+    def __truediv__(self, o):
+        o = exact(o)
+        if isinstance(o, (int, Fraction)) and not isinstance(o, bool):
+            return PiMul(self.q / o)
+        return NotImplemented
+
+    def __add__(self, o):
+        return PiMul(self.q + o.q) if isinstance(o, PiMul) else NotImplemented
+
+    def __sub__(self, o):
+        return PiMul(self.q - o.q) if isinstance(o, PiMul) else NotImplemented
+
+    def __neg__(self):
+        return PiMul(-self.q)
+
+    def __repr__(self):
+        return f"{self.q}*pi"
+
+    def cos(self):
+        q = self.q % 2  # cos is 2 pi periodic
+        if q > 1:
+            q = 2 - q  # cos(2 pi - t) = cos t
+        sign = 1
+        if q > Fraction(1, 2):
+            q, sign = 1 - q, -1  # cos(pi - t) = -cos t
+        s = MQ.sqrt
+        table = {
+            Fraction(0): MQ.of(1), Fraction(1, 2): MQ.of(0), Fraction(1, 3): MQ.of(Fraction(1, 2)), Fraction(1, 4): s(2) * Fraction(1, 2), Fraction(1, 6): s(3) * Fraction(1, 2),
+            Fraction(1, 5): (MQ.of(1) + s(5)) * Fraction(1, 4), Fraction(2, 5): (s(5) - MQ.of(1)) * Fraction(1, 4),
+            Fraction(1, 12): (s(6) + s(2)) * Fraction(1, 4), Fraction(5, 12): (s(6) - s(2)) * Fraction(1, 4),
+        }
+        if q not in table:
+            raise AlgError(f"cos({self.q} pi) is outside the exact (multi-quadratic) domain")
+        v = table[q] * sign
+        return v.rational() if v.is_rational() else v
+
+    def sin(self):
+        return PiMul(Fraction(1, 2) - self.q).cos()
+
+
 class Sink:
     """Absorbs attribute access and calls (timers, loggers, printers)."""
 
@@ -837,7 +896,7 @@ class _Frame:
             if attr == "newaxis":
                 return None
             if attr == "pi":
-                raise self.bad("np.pi is outside the exact domain", n)
+                return PiMul(Q(1))  # exact rational multiples of pi: only their cosines / sines at the tabulated angles leave this form
             return _NpAttr(attr)
         if isinstance(obj, _NpAttr):
             return _NpAttr(obj.path + "." + attr)
@@ -1472,6 +1531,8 @@ _NP_FUNCS = {
     "diff": lambda a, **k: (lambda v: XArray((max(len(v) - 1, 0),), [v[i + 1] - v[i] for i in range(len(v) - 1)]))(list(XArray.from_nested(a).data)),
     "bincount": lambda x, weights=None, minlength=0: _np_bincount(x, weights, minlength),
     "flatnonzero": lambda a: _np_flatnonzero(a),
+    "cos": lambda a: _np_trig(a, "cos"),
+    "sin": lambda a: _np_trig(a, "sin"),
     "max": lambda a, axis=None, **k: XArray.from_nested(a).max(axis),
     "min": lambda a, axis=None, **k: XArray.from_nested(a).min(axis),
     "amax": lambda a, axis=None, **k: XArray.from_nested(a).max(axis),
@@ -1480,6 +1541,17 @@ _NP_FUNCS = {
     "int64": lambda x=0: x,
     "int32": lambda x=0: x,
 }
+
+
+def _np_trig(a, which):
+    if isinstance(a, XArray):
+        return XArray(a.shape, [_np_trig(v, which) for v in a.data])
+    a = exact(a)
+    if isinstance(a, PiMul):
+        return getattr(a, which)()
+    if isinstance(a, (int, Fraction)) and a == 0:
+        return Q(1) if which == "cos" else Q(0)
+    raise AlgError(f"np.{which} of a value that is not a rational multiple of pi")
 
 
 def _np_flatnonzero(a):
